@@ -1086,9 +1086,13 @@ def instances(tier: str) -> List[Tuple[str, tuple, dict, Callable[..., Callable[
     # fillomino (integer answers)
     I += [("fillomino", (2, 2, [[0, 0], [0, 0]]), {}, rule_fillomino),
           ("fillomino", (1, 3, [[0, 2, 0]]), {}, rule_fillomino),
-          ("fillomino", (2, 2, [[0, 0], [0, 3]]), {"checkered": True}, rule_fillomino)]
+          ("fillomino", (2, 2, [[0, 0], [0, 3]]), {"checkered": True}, rule_fillomino),
+          ("fillomino", (1, 3, [[1, 0, 0]]), {}, rule_fillomino),
+          ("fillomino", (2, 2, [[1, 0], [0, 0]]), {"checkered": True}, rule_fillomino)]
     if deep:
-        I += [("fillomino", (2, 3, [[0, 0, 0], [0, 0, 0]]), {}, rule_fillomino), ("fillomino", (1, 4, [[0, 0, 0, 0]]), {"checkered": True}, rule_fillomino)]
+        # 2x3 is the smallest board with three mutually adjacent blocks (3 / 2 / 1): valid, but not two-colourable
+        I += [("fillomino", (2, 3, [[0, 0, 0], [0, 0, 0]]), {}, rule_fillomino), ("fillomino", (1, 4, [[0, 0, 0, 0]]), {"checkered": True}, rule_fillomino),
+              ("fillomino", (2, 3, [[0, 0, 0], [0, 0, 0]]), {"checkered": True}, rule_fillomino)]
     # lits: two rooms of six cells side by side / stacked, and an L-shaped room
     I += [("lits", (3, 4, [[(y, x) for y in range(3) for x in range(2)], [(y, x) for y in range(3) for x in range(2, 4)]]), {}, rule_lits),
           ("lits", (4, 3, [[(y, x) for y in range(2) for x in range(3)], [(y, x) for y in range(2, 4) for x in range(3)]]), {}, rule_lits),
